@@ -26,11 +26,27 @@ def _rand_c01(rng, tier, sc0):
             # the documented truncation of a non-rotated file re-opened without append is part of the monitor's history)
             steps = []
             for _ in range(rng.choice([2, 3, 4])):
-                h = G.rand_history(rng, c, rng.choice([3, 8, 20, 40]))
-                h[0]["append"] = rng.random() < 0.5
+                h = G.rand_history(rng, c, rng.choice([3, 8, 20, 40]), p_adv=0.3)
+                h[0]["append"] = rng.random() < 0.6
                 steps += h
-                if rng.random() < 0.5:
+                if rng.random() < 0.8:
                     steps.append({"op": "Adv", "dt": rng.choice([1, 2, 61, 3600, 86400])})
+        if i % 10 == 7:
+            # timestamps as infix of the current file, appending restarts at different instants: the stream continues in
+            # the newest file
+            c = {"naming": rng.choice(["TsD", "TsCD"]), "rot": True, "size": rng.choice([10, 30, 64]),
+                 "mode": rng.choice(["direct", "buf"]), "cap": 64, "crlf": False}
+            if c["naming"] == "TsCD":
+                c["fmt"] = rng.choice(["r%Y-%m-%d_%H-%M-%S", "r%Y%m%d-%H%M%S"])
+            steps = []
+            for r in range(rng.choice([2, 3, 4])):
+                steps.append({"op": "Start", "append": r == 0 or rng.random() < 0.8})
+                for _ in range(rng.choice([1, 2, 4])):
+                    if rng.random() < 0.6:
+                        steps.append({"op": "Adv", "dt": rng.choice([1, 2, 3, 61])})
+                    steps.append({"op": "Log", "len": rng.choice([9, 12, 21, 40])})
+                steps.append({"op": "Stop"})
+                steps.append({"op": "Adv", "dt": rng.choice([1, 2, 5, 60])})
         if i % 4 == 2:
             # recursive logging: the message of a record logs another record while it is being formatted
             for st in steps:
@@ -119,11 +135,28 @@ def _rand_c06(rng, tier, sc0):
         if c.get("naming") in ("TsC", "TsCD") and "k" not in c and "m" not in c and i % 2 == 0:
             # a legal custom format whose alphabetical order is not the chronological one (nothing in the documentation
             # asks for a sortable format; without cleanup nothing depends on the order of the names)
-            c["fmt"] = "r%d-%m-%Y_%H-%M-%S"
+            c["fmt"] = rng.choice(["r%S-%M-%H_%d-%m-%Y", "r%d-%m-%Y_%H-%M-%S"])
+        t0 = G.boundary_t0(rng)
+        if i % 10 == 6:
+            # timestamps as infix of the current file, a format whose name order flips at every minute, restarts with
+            # append: "the newest file" must be the newest by date, not by name
+            c = {"naming": "TsCD", "fmt": "r%S-%M-%H_%d-%m-%Y", "rot": True, "size": rng.choice([10, 30, 64]),
+                 "mode": rng.choice(["direct", "buf"]), "cap": 64, "crlf": False}
+            t0 = 58 + 60 * rng.randint(0, 5000)
+            steps = []
+            for r in range(rng.choice([2, 3, 4])):
+                steps.append({"op": "Start", "append": rng.random() < 0.75})
+                for _ in range(rng.choice([1, 2, 4])):
+                    if rng.random() < 0.6:
+                        steps.append({"op": "Adv", "dt": rng.choice([1, 2, 3, 61])})
+                    steps.append({"op": "Log", "len": rng.choice([9, 12, 21, 40])})
+                steps.append({"op": "Stop"})
+                if rng.random() < 0.5:
+                    steps.append({"op": "Adv", "dt": rng.choice([1, 2, 5, 60])})
         if i % 5 == 4 and c.get("rot", True) and "use_ts" not in c:
             # FileLogWriter::builder().use_utc(): infixes rendered in UTC (the shards run under different zones)
             c["via"], c["utc"] = "flw", True
-        out.append({"sc": sc0 + i, "cfg": c, "t0": G.boundary_t0(rng), "steps": steps, "origin": "rand"})
+        out.append({"sc": sc0 + i, "cfg": c, "t0": t0, "steps": steps, "origin": "rand"})
     return out
 
 
